@@ -126,6 +126,45 @@ def full_grids(ll, shape, mapping, corners):
     return [np.asarray(x, dtype=float) for x in out]
 
 
+def fresh_unset_wcs_check(case, fails, tags):
+    """A FITS WCS as a user builds it by hand, in nm and minutes, never used for anything before the request: the very
+    first request on the cube (values form) already reports physical values - wcslib rescales such a WCS to metres and
+    seconds the first time it is used, and the units must be read after that, not before."""
+    from ndcube import NDCube
+    from astropy.wcs import WCS
+    def hand_built():
+        w = WCS(naxis=2)
+        w.wcs.ctype = ["WAVE", "TIME"]
+        w.wcs.cunit = ["nm", "min"]
+        w.wcs.cdelt = [0.25, 0.5]
+        w.wcs.crval = [500.0, 2.0]
+        w.wcs.crpix = [1, 2]
+        return w
+    twin = hand_built()
+    twin.wcs.set()
+    cube = NDCube(np.zeros((3, 4)), wcs=hand_built())
+    try:
+        first = cube.axis_world_coords_values(pixel_corners=case["corners"])
+    except Exception as e:
+        fails.append(f"first request on a cube with a hand-built FITS WCS (nm, min) raised {type(e).__name__}: {str(e)[:100]}")
+        return
+    off = -0.5 if case["corners"] else 0.0
+    n = (5, 4) if case["corners"] else (4, 3)          # pixel order: WAVE has 4 elements, TIME 3
+    tu = [u.Unit(x) for x in twin.world_axis_units]    # (the units after wcslib's own normalisation: m and min)
+    want = {"em_wl": np.asarray(twin.pixel_to_world_values(np.arange(n[0]) + off, np.zeros(n[0]))[0]) * tu[0],
+            "time": np.asarray(twin.pixel_to_world_values(np.zeros(n[1]), np.arange(n[1]) + off)[1]) * tu[1]}
+    for nm, w_ in want.items():
+        q = getattr(first, nm, None)
+        try:
+            ok = q is not None and np.allclose(u.Quantity(q).to_value(w_.unit), w_.value, rtol=1e-9)
+        except Exception:
+            ok = False
+        if not ok:
+            fails.append(f"first request (values form) on a cube with a hand-built FITS WCS in nm / min: {nm} is {q if q is None else u.Quantity(q)[:2]}, "
+                         f"an identical WCS gives {w_[:2]}")
+    tags.append("fresh-hand-built-wcs")
+
+
 def run(case):
     rng = random.Random(case["wseed"] + 4)
     tags = [f"ndim={len(case['shape'])}", f"fam={case['fam']}", f"which={case['which']}", f"corners={case['corners']}",
@@ -136,6 +175,8 @@ def run(case):
            "nontrivial": repr(sorted(case.items(), key=str))}
     exact = case["fam"].startswith("probe")
     fails = []
+    if case["wseed"] % 6 == 5:
+        fresh_unset_wcs_check(case, fails, tags)
     try:
         cube = build(case)
         shape = tuple(cube.data.shape)
